@@ -3,14 +3,14 @@
 # Runs one check against a scratch copy of /repo with <patch.diff> applied (git apply),
 # without touching /repo or /verif's evidence. Prints the check's output; exit code = check's.
 set -u
-ID=${1:?id}; TIER=${2:?tier}; PATCH=${3:?patch}; SEED=${4:-1}
+ID=${1:?id}; TIER=${2:?tier}; PATCH=$(readlink -f "${3:?patch}"); SEED=${4:-1}
 TC=/root/go/pkg/mod/golang.org/toolchain@v0.0.1-go1.24.2.linux-amd64/bin
 export PATH="$TC:$PATH" GOTOOLCHAIN=local GOFLAGS=-mod=mod GOPROXY=off GOSUMDB=off
 T=$(mktemp -d /tmp/vmut.XXXXXX)
 trap 'rm -rf "$T"' EXIT
 mkdir -p $T/state
 rsync -a --exclude .git /repo/ $T/shisui/
-( cd $T/shisui && git init -q . && git apply --whitespace=nowarn "$(readlink -f "$PATCH")" ) || { echo "PATCH DOES NOT APPLY"; exit 3; }
+( cd $T/shisui && git init -q . && git apply --whitespace=nowarn "$PATCH" ) || { echo "PATCH DOES NOT APPLY"; exit 3; }
 sed "s#=> /repo#=> $T/shisui#" /verif/harness/go.mod > $T/go.mod
 cp /verif/harness/go.sum $T/go.sum
 id=${ID,,}
